@@ -310,7 +310,20 @@ class Gen:
         ignore_file_at = None
         for _ in range(n):
             r = rng.random()
-            if r < 0.10 and self.f["single"]:
+            if r < 0.03 and self.f["single"] and self.f["nest"]:
+                # an IGNORED line that changes the nesting depth by more than one step (or opens, closes and
+                # opens again): the depth must be tracked through ignored lines exactly as through counted ones
+                a, b = rng.choice(self.f["nest"])
+                t = lambda: self.tame_text(ban=(a[0], b[0], a[-1], b[-1]))
+                form = rng.random()
+                if form < 0.5:
+                    body_l = [a + " " + t() + " " + a + " " + t(), " " + t() + " " + b, t() + " " + b]
+                else:
+                    body_l = [a + " " + t() + " " + b + " " + a + " " + t(), t() + " " + b]
+                k = rng.choice([1, 1, len(body_l) - 1])
+                lines += [self.directive("ignore-next %d" % k)] + body_l
+                truth += ["M"] + ["I"] * k + ["M"] * (len(body_l) - k)
+            elif r < 0.10 and self.f["single"]:
                 # ignore-next N over whole pieces
                 body_l, body_t = [], []
                 for _ in range(rng.randint(0, 2)):
